@@ -6,7 +6,9 @@ export CARGO_NET_OFFLINE=true RUST_BACKTRACE=0 RUST_LIB_BACKTRACE=0
 "$VERIF/links.sh"
 cd "$VERIF/harness"
 mkdir -p "$VERIF/.work" "$VERIF/evidence" "$VERIF/replays"
+export CARGO_TARGET_DIR="$VERIF/harness/target"
 cargo build --offline --release 2>&1 | tail -3
 cargo build --offline --profile ovf 2>&1 | tail -3
+unset CARGO_TARGET_DIR
 ( cd /repo && CARGO_TARGET_DIR="$VERIF/.cache/repo-target" cargo build --offline --release 2>&1 | tail -1 )
 echo "setup ok"
